@@ -174,6 +174,7 @@ type Run struct {
 	viper    map[string]Value
 	viperFile string
 	viperSerial int
+	tmpSerial int
 	nowCount int
 	lastNow *Term
 	envChans []*Chan
